@@ -77,6 +77,86 @@ func mapUpdatesOfField(fns []*ssa.Function, f *types.Var) []*ssa.MapUpdate {
 	return out
 }
 
+// fmStore is a store into the map held in a struct field: `x.f[k] = v` itself, or a call of a helper
+// that stores into a map parameter for which this call passes x.f (`recordOnce(x.f, …, v, k)`).
+type fmStore struct {
+	mu   *ssa.MapUpdate
+	call *ssa.Call // nil: the store is written in place
+}
+
+// at: the instruction whose guards decide whether the store happens in the analysed function.
+func (s fmStore) at() ssa.Instruction {
+	if s.call != nil {
+		return s.call
+	}
+	return s.mu
+}
+
+// resolve: a value of the storing helper, seen from the call (a parameter becomes the argument).
+func (s fmStore) resolve(v ssa.Value) ssa.Value {
+	if s.call == nil {
+		return strip(v)
+	}
+	noParamLook++
+	sv := strip(v)
+	noParamLook--
+	if p, ok := sv.(*ssa.Parameter); ok && p.Parent() == s.mu.Parent() {
+		if i := paramIndex(p); i >= 0 && i < len(s.call.Call.Args) {
+			return strip(s.call.Call.Args[i])
+		}
+	}
+	return sv
+}
+
+// sameMap: m (a value in the frame of the store) is the map stored into.
+func (s fmStore) sameMap(m ssa.Value, f *types.Var) bool {
+	if s.call == nil {
+		return isLoadOfField(m, f)
+	}
+	noParamLook++
+	defer func() { noParamLook-- }()
+	return strip(m) == strip(s.mu.Map)
+}
+
+func fieldMapStores(fns []*ssa.Function, f *types.Var) []fmStore {
+	var out []fmStore
+	for _, mu := range mapUpdatesOfField(fns, f) {
+		out = append(out, fmStore{mu: mu})
+	}
+	inFns := map[*ssa.Function]bool{}
+	for _, fn := range fns {
+		inFns[fn] = true
+	}
+	for _, fn := range fns {
+		for _, in := range instrsOf(fn) {
+			cl, ok := in.(*ssa.Call)
+			if !ok {
+				continue
+			}
+			g := cl.Call.StaticCallee()
+			if g == nil || g.Blocks == nil || inFns[g] || !ownPkgPath(pkgPathOf(g)) || len(g.Params) != len(cl.Call.Args) {
+				continue
+			}
+			for _, gi := range instrsOf(g) {
+				mu, ok := gi.(*ssa.MapUpdate)
+				if !ok {
+					continue
+				}
+				noParamLook++
+				mp, isP := strip(mu.Map).(*ssa.Parameter)
+				noParamLook--
+				if !isP || mp.Parent() != g {
+					continue
+				}
+				if i := paramIndex(mp); i >= 0 && isLoadOfField(cl.Call.Args[i], f) {
+					out = append(out, fmStore{mu: mu, call: cl})
+				}
+			}
+		}
+	}
+	return out
+}
+
 // mapDeletesOfField: delete(x.f, k) calls.
 func mapDeletesOfField(fns []*ssa.Function, f *types.Var) []ssa.CallInstruction {
 	var out []ssa.CallInstruction
